@@ -762,9 +762,13 @@ class Grad(DiffOperator):
             else:
                 return S.Zero
 
-        elif isinstance(expr, Pow):  # TODO: fix this for the case where e is not a number
+        elif isinstance(expr, Pow):
             b = expr.base
             e = expr.exp
+            if not e.is_number:
+                # general power rule: d(b**e) = e*b**(e-1)*db + b**e*log(b)*de
+                from sympy import log
+                return e*expr.func(b, e-1)*cls(b) + expr*log(b)*cls(e)
             a = cls(b)
             expr = expr.func(b, e-1)
             if isinstance(a, Add):
